@@ -89,6 +89,11 @@ fn alphabet(n: usize, tier: Tier) -> Vec<Dev> {
             s.variants[i].detailed_message = Some(String::new());
             true
         }));
+        d.push(dev(format!("v{}.message / detailed_message with quote, backslash, braces, newline", i), &[&format!("msg{}", i), &format!("det{}", i)], move |s| {
+            s.variants[i].message = Some("q\"b\\n {x} {{y}}".into());
+            s.variants[i].detailed_message = Some("line1\nline2\t%s \\".into());
+            true
+        }));
         d.push(dev(format!("v{}.detailed_message", i), &[&format!("det{}", i)], move |s| {
             s.variants[i].detailed_message = Some(format!("d{} é", i));
             true
